@@ -212,10 +212,16 @@ def run(tier):
         fl = dict(ok_rets[0][1][2])
         cf = fl.get('confirmed')
         # payload of ok_or_else(<option local filled by next_value under the Confirmed key>, missing_field("confirmed"))
-        src = rules.find_in_term(cf, lambda y: isinstance(y, tuple) and len(y) >= 3 and y[0] == 'call' and y[1].endswith('ok_or_else'))
-        okr = src is not None and peel(src[2][0])[0] == 'phi'
+        # the option local filled by next_value under the Confirmed key, unwrapped either way: ok_or_else(opt, missing_field(..))? or
+        # `let Some(confirmed) = opt else { return Err(missing_field(..)) }` / a match on it
+        src = rules.find_in_term(cf, lambda y: isinstance(y, tuple) and len(y) >= 3 and y[0] == 'call' and y[1].endswith(('ok_or_else', 'ok_or')))
+        opt = peel(src[2][0]) if src is not None else None
+        if opt is None:
+            pl = rules.find_in_term(cf, lambda y: isinstance(y, tuple) and len(y) == 3 and y[0] == 'field' and y[2] in ('0', 0) and isinstance(y[1], tuple) and y[1][:1] == ('as',) and y[1][2] == 'Some')
+            opt = peel(pl[1][1]) if pl is not None else None
+        okr = opt is not None and opt[0] == 'phi'
         if okr:
-            defs = rules.defs_with_conditions(bfm, peel(src[2][0])[1])
+            defs = rules.defs_with_conditions(bfm, opt[1])
             okr = any(has_call(dv, 'next_value') for dv, cs, b_ in defs) and all(has_call(dv, 'next_value') or (dv[0] == 'agg' and dv[1].endswith('Option::None')) for dv, cs, b_ in defs)
         okr = okr and len(ext) == 1 and bfm.cfg.dominates(ext[0][0], ok_rets[0][0])
     res.require(okr, 'C20:Uplink:deserialize:single-ok', 'restoring an Uplink does not always return {pending filled from the data read, confirmed = the value read}: %d successful return(s) %s' % (
